@@ -2,11 +2,16 @@
 //! only a single push (or pop) may execute the critical region at a time
 
 use super::super::ogre_stacks::OgreStack;
+#[cfg(not(feature = "verif"))]
 use std::{
     fmt::Debug,
     sync::atomic::{AtomicU64,AtomicBool,Ordering},
     mem::MaybeUninit,
 };
+#[cfg(feature = "verif")]
+use std::{fmt::Debug, mem::MaybeUninit};
+#[cfg(feature = "verif")]
+use crate::verif::atomic::{AtomicU64,AtomicBool,Ordering};
 
 
 #[repr(C,align(64))]      // aligned to cache line sizes to avoid false-sharing performance degradation
@@ -48,6 +53,7 @@ impl<SlotType: Copy+Debug, const BUFFER_SIZE: usize, const METRICS: bool, const 
         loop {
             let in_use = self.flag.swap(true, Ordering::Acquire);
             if !in_use {
+                #[cfg(feature = "verif")] crate::verif::yield_point_r("astack.head.read");
                 if self.head >= BUFFER_SIZE as u32 {
                     // stack is full
                     self.flag.store(false, Ordering::Relaxed);
@@ -56,7 +62,9 @@ impl<SlotType: Copy+Debug, const BUFFER_SIZE: usize, const METRICS: bool, const 
                     }
                     return false;
                 }
+                #[cfg(feature = "verif")] crate::verif::yield_point_w("astack.push.write");
                 mutable_self.buffer[self.head as usize] = element;
+                #[cfg(feature = "verif")] crate::verif::yield_point_w("astack.head.inc");
                 mutable_self.head += 1;
                 self.flag.store(false, Ordering::Release);
                 if METRICS {
@@ -80,6 +88,7 @@ impl<SlotType: Copy+Debug, const BUFFER_SIZE: usize, const METRICS: bool, const 
         loop {
             let in_use = self.flag.swap(true, Ordering::Acquire);
             if !in_use {
+                #[cfg(feature = "verif")] crate::verif::yield_point_r("astack.head.read");
                 if self.head == 0 {
                     // empty stack
                     self.flag.store(false, Ordering::Relaxed);
@@ -88,7 +97,9 @@ impl<SlotType: Copy+Debug, const BUFFER_SIZE: usize, const METRICS: bool, const 
                     }
                     return None;
                 }
+                #[cfg(feature = "verif")] crate::verif::yield_point_w("astack.head.dec");
                 mutable_self.head -= 1;
+                #[cfg(feature = "verif")] crate::verif::yield_point_r("astack.pop.read");
                 let element = self.buffer[self.head as usize];
                 self.flag.store(false, Ordering::Release);
                 if METRICS {
